@@ -22,10 +22,10 @@ Locs == IF LocSet = "small" THEN {<<"sub", "">>, <<"", "sp1">>} ELSE {<<"", "">>
 
 T(kind, name, subdir, sp, srcs, gen, link, bbd, install, outs, deps) ==
     [kind |-> kind, name |-> name, subdir |-> subdir, sp |-> sp, srcs |-> srcs, gen |-> gen, genlist |-> <<>>,
-     link |-> link, bbd |-> bbd, install |-> install, outs |-> outs, deps |-> deps]
+     link |-> link, bbd |-> bbd, install |-> install, outs |-> outs, deps |-> deps, objs |-> <<>>]
 NoTest == <<>>
 P(layout, deflib, ts, tests) == [name |-> "fam", lang |-> "c", layout |-> layout, deflib |-> deflib, targets |-> ts,
-                                 tests |-> tests]
+                                 tests |-> tests, unity |-> "off", unity_size |-> 4]
 Plain(kind, name, subdir, sp, i) ==
     T(kind, name, subdir, sp, IF kind \in BuildKinds THEN <<"t" \o ToString(i) \o ".c">> ELSE <<>>, <<>>, <<>>,
       "unset", FALSE, <<>>, <<>>)
@@ -90,6 +90,15 @@ SameNameTests(pr, bn) ==
     {<<Test("t1", 1, <<2>>, <<>>, bn)>>, <<Test("t1", 1, <<>>, <<2>>, bn)>>, <<Test("t1", 1, <<>>, <<>>, bn), Test("t2", 1, <<2>>, <<>>, bn)>>}
     \cup (IF pr[2].kind = "exe" THEN {<<Test("t1", 1, <<>>, <<>>, bn), Test("t2", 2, <<>>, <<>>, bn)>>} ELSE {})
 F4 == UNION {UNION {{P(l, "shared", pr, x) : l \in Layouts} : x \in SameNameTests(pr, bn)} : <<pr, bn>> \in SameNamePairs \X BOOLEAN}
+\* F5: unity builds with object extraction around the chunk boundaries: n = 1 .. 2*size+1 sources, unity_size 2
+\* and 4; the objects are consumed by the static half of a both-library or by extract_all_objects(); unity=on in
+\* the main project and unity=subprojects with the provider in a subproject
+USrcs(n) == [k \in 1..n |-> "u" \o ToString(k) \o ".c"]
+UProvider(kind, n, sp) == [T(kind, "foo", "", sp, USrcs(n), <<>>, <<>>, "unset", FALSE, <<>>, <<>>) EXCEPT !.objs = <<>>]
+UConsumer(sp) == [T("static", "bar", "", sp, <<"t2.c">>, <<>>, <<>>, "unset", FALSE, <<>>, <<>>) EXCEPT !.objs = <<1>>]
+F5 == UNION {{[P(l, "shared", <<UProvider(k, n, us[2]), UConsumer(us[2])>>, NoTest) EXCEPT !.unity = us[1], !.unity_size = size]
+                : l \in Layouts, k \in {"both", "static"}, n \in 1..(2 * size + 1),
+                  us \in {<<"on", "">>, <<"subprojects", "sp1">>}} : size \in {2, 4}}
 F2 == UNION {UNION {UNION {{P(l, dl, <<a, b>>, x) : l \in Layouts, dl \in Deflibs \ {"static"}} : x \in TestsFor(a, b)}
                       : b \in Consumers(a, rel)} : <<a, rel>> \in Providers \X BOOLEAN}
 
@@ -103,7 +112,7 @@ Expectations(p) ==
 VARIABLES fam, p, built, started
 vars == <<fam, p, built, started>>
 Init == /\ \/ fam = "F1" /\ p \in F1
-           \/ fam = "F2" /\ p \in F2 \cup F3 \cup F4
+           \/ fam = "F2" /\ p \in F2 \cup F3 \cup F4 \cup F5
         /\ built = {}
         /\ started = FALSE
 Start == ~started /\ started' = TRUE /\ UNCHANGED <<fam, p, built>>
@@ -149,14 +158,25 @@ FlatRule == (started /\ built = {}) =>
          /\ FileNames(p, p.targets[i]) \cap FileNames(p, p.targets[j]) # {})
         => (<<i, j>> \in CollidingPairs(p) <=> (p.layout = "flat" \/ Loc(p.targets[i]) = Loc(p.targets[j])))
 
+\* the rule book on its own graph: a unity target has ceil(n/size) objects and a consumer links exactly those
+UnityLaw ==
+    (started /\ built = {} /\ ~Collides(p)) =>
+        /\ \A i \in UnityTargets(p) :
+              /\ Cardinality(Objects(p, p.targets[i])) = UnityChunks(Len(p.targets[i].srcs), p.unity_size)
+              /\ (Len(p.targets[i].srcs) <= p.unity_size => Cardinality(Objects(p, p.targets[i])) = 1)
+        /\ UnityFilesWrong(p, G) = {}
+        /\ UnityExtractionWrong(p, G) = {}
+
 WithX(q) == [q EXCEPT !.name = "fam"] @@ [x |-> Expectations(q)]
 EmitFamily == TLCGet("stats").diameter >= 0 /\
               LET s1 == SetToSeq(F1)
                   s2 == SetToSeq(F2)
                   s3 == SetToSeq(F3)
                   s4 == SetToSeq(F4)
+                  s5 == SetToSeq(F5)
               IN JsonSerialize("family.json", [f1 |-> [i \in DOMAIN s1 |-> WithX(s1[i])],
                                                f2 |-> [i \in DOMAIN s2 |-> WithX(s2[i])],
                                                f3 |-> [i \in DOMAIN s3 |-> WithX(s3[i])],
-                                               f4 |-> [i \in DOMAIN s4 |-> WithX(s4[i])]])
+                                               f4 |-> [i \in DOMAIN s4 |-> WithX(s4[i])],
+                                               f5 |-> [i \in DOMAIN s5 |-> WithX(s5[i])]])
 =============================================================================
